@@ -133,15 +133,15 @@ def w_tables(job):
     if job.get('proj'):
         lo, ro = job['proj']
     if job.get('derived'):
-        # the tables under test are row selections of frames that have already been through a call
+        # the tables under test are row selections of bigger frames that have already been through a call
         import pandas as pd
-        bigL = pd.concat([L.iloc[:0], L, L.iloc[:0]])
-        bigL2 = pd.concat([L, L.iloc[:1].assign(id=L['id'].iloc[:1].map(lambda k: 'zz' if isinstance(k, str) else -99999))])
-        call_join(meas, bigL2, R, make_tokenizer(spec), t, op, ae, job.get('am', False), lo, ro, score, 1)
-        L = bigL2.iloc[:-1]
-        Rb = pd.concat([R.iloc[:1].assign(id=R['id'].iloc[:1].map(lambda k: 'zy' if isinstance(k, str) else -99998)), R])
-        call_join(meas, L, Rb, make_tokenizer(spec), t, op, ae, job.get('am', False), lo, ro, score, 1)
-        R = Rb.iloc[1:]
+        extra_l = L.iloc[:1].assign(id=L['id'].iloc[:1].map(lambda k: 'zz' if isinstance(k, str) else -99999))
+        extra_r = R.iloc[:1].assign(id=R['id'].iloc[:1].map(lambda k: 'zy' if isinstance(k, str) else -99998))
+        bigL = pd.concat([L, extra_l])
+        bigR = pd.concat([extra_r, R])
+        call_join(meas, bigL, bigR, make_tokenizer(spec), t, op, ae, job.get('am', False), lo, ro, score, 1)
+        L = bigL.iloc[:-1]
+        R = bigR.iloc[1:]
     out = call_join(meas, L, R, tok, t, op, ae, job.get('am', False), lo, ro, score, n_jobs)
     got, probs = index_output(out, lkeys, rkeys, score)
     lm, rm = masks_for(lvals, rvals, spec)
